@@ -62,9 +62,12 @@ for case in job['unchecked']:
     except Exception as ex:
         out['unchecked'].append({'ctor': type(ex).__name__})
         continue
+    ever = {}
     for i, op in enumerate(case['ops']):
         st = 'ok'
         txt = None
+        for c0 in e.get_children(ordered=False):
+            ever[id(c0)] = c0
         buf = io.StringIO()
         with contextlib.redirect_stdout(buf), contextlib.redirect_stderr(buf):
             try:
@@ -102,6 +105,11 @@ for case in job['unchecked']:
              'ord': [c._vid for c in e.get_children(ordered=True)],
              # switching the checks off must not switch off the tree: every child points at the element and sits one level below it
              'linked': all(c.up is e and c.get_level() == e.get_level() + 1 for c in e.get_children(ordered=False))}
+        for c0 in e.get_children(ordered=False):
+            ever[id(c0)] = c0
+        # ... and a child that has left (removed, unset, replaced out) no longer points at the element: its own level, root and indentation are its own
+        now = {id(c0) for c0 in e.get_children(ordered=False)}
+        o['released'] = all(c0.up is not e for k0, c0 in ever.items() if k0 not in now)
         if txt is not None:
             o['txt'] = txt
             o['names'] = [c.name for c in e.get_children(ordered=False)]
